@@ -200,7 +200,9 @@ def run_histories(ctx):
     idx = 0
     for length in range(1, maxlen + 1):
         n = 0
-        for seq in itertools.product(range(len(events)), repeat=length):
+        # length 4 (thorough) runs over the first 12 strings (36 events, 1.7M sequences); shorter ones over all
+        nev = len(events) if length <= 3 else 36
+        for seq in itertools.product(range(nev), repeat=length):
             idx += 1
             if not ctx.mine(idx):
                 continue
@@ -231,7 +233,7 @@ def run_histories(ctx):
                 ctx.count('cache_hits_in_histories')
             if nfail or hit:
                 ctx.nontrivial(['hist', seq])
-        ctx.subspace('event sequences of length %d over %d events' % (length, len(events)), n, True)
+        ctx.subspace('event sequences of length %d over %d events' % (length, nev), n, True)
     if ctx.shard == 0:
         ctx.sample({'history': [(ALPHABET[3], 'evalA'), (ALPHABET[7], 'parse'), (ALPHABET[1], 'evalB')],
                     'baselines': [str(baseline[(ALPHABET[3], 'evalA')])[:200], str(baseline[(ALPHABET[7], 'parse')])[:200],
